@@ -322,7 +322,7 @@ uint32_t crc_legacy(const uint8_t *p, size_t n)
 int ref_isal_word_bits = 0;
 int ref_word_bytes(int backend)
 {
-    if ((backend == REF_BE_ISAL_VAND || backend == REF_BE_ISAL_CAUCHY) && ref_isal_word_bits >= 8) return ref_isal_word_bits / 8;
+    { int wb = __atomic_load_n(&ref_isal_word_bits, __ATOMIC_RELAXED); if ((backend == REF_BE_ISAL_VAND || backend == REF_BE_ISAL_CAUCHY) && wb >= 8) return wb / 8; }
     switch (backend) {
     case REF_BE_RSVAND: return 2;
     case REF_BE_XOR: return 4;
